@@ -518,9 +518,13 @@ func (i *IfUnless) Evaluation(
 
 			i.ifNarrowTs = make(map[string][]base.T)
 
-			_, err := i.getBackupContext(e, *p, ctx)
+			elsifZaoriks, err := i.getBackupContext(e, *p, ctx)
 			if err != nil {
 				p.Fatal(ctx, err)
+			}
+
+			for _, zaorik := range elsifZaoriks {
+				defer zaorik()
 			}
 
 			resultTs = append(resultTs, p.GetLastEvaluatedT())
